@@ -59,7 +59,9 @@ def Sense(
                     mps[c * coil_batch_size : ((c + 1) * coil_batch_size)],
                     coord=coord,
                     weights=weights,
+                    tseg=tseg,
                     ishape=ishape,
+                    transp_nufft=transp_nufft,
                 )
                 for c in range(num_coil_batches)
             ],
